@@ -80,7 +80,7 @@ class C12(common.Spec):
                 guard_time=case['guard_us'] / 1e6 if case['guard_us'] else None,
                 on_success=edzed.Event(dest, 'success'), on_error=edzed.Event(dest, 'error'),
                 on_cancel=edzed.Event(dest, 'cancel'), on_output=edzed.Event(dest, 'out'),
-                stop_timeout=60, **kw)
+                stop_timeout=60, debug=len(case['puts']) % 2 == 1, **kw)    # debugging messages on/off
             orig_stop = out.stop
 
             def stop_wrapper():
